@@ -227,7 +227,7 @@ void *a_buf_push_back(void *ctx_)
 void *a_buf_remove(void *ctx_, a_size idx)
 {
     a_buf *const ctx = (a_buf *)ctx_;
-    if (idx + 1 < ctx->num_)
+    if (idx < ctx->num_ && idx + 1 < ctx->num_)
     {
         a_byte *const buf = (a_byte *)(ctx + 1);
         a_byte *const p = buf + ctx->siz_ * idx;
